@@ -22,4 +22,4 @@ for id in $ids; do
   fi
   git -C /repo worktree remove --force "$wt"
 done
-mv $out.tmp $out
+if [ $# -eq 0 ]; then mv $out.tmp $out; else cat $out.tmp; rm -f $out.tmp; fi
